@@ -61,4 +61,12 @@ TEXT["C04"] = {
     "note": COMMON_NOTE + "Theorems for this property are small (XOR semantics); the assurance comes mainly from the oracle correspondence. CLI option matrix not yet driven (partial).",
     "technique": "Lean 4 executable specification + oracle correspondence on same-shot data",
 }
+TEXT["C03"] = {
+    "level": "Kernel-checked: each reverse-tracking rule is the inverse gate's documented conjugation (regenerated each run); the combination law p*q = p(1-q)+q(1-p) is commutative, associative and "
+             "multiplies Fourier factors (so merging equal-symptom mechanisms in any order preserves the distribution); a gauge direction annihilates exactly the characters that see it. "
+             "Correspondence: the model returned for a circuit is compared with the circuit's noise pushed forward fault by fault in Lean — Fourier coefficients in exact rational arithmetic plus support "
+             "equality — and rejections (non-deterministic detectors/observables, disjoint channels without approximation, over-mixing) must match the Lean decision.",
+    "note": COMMON_NOTE + "Equality of distributions is tested on a finite set of characters (all singletons, all pairs for <= 10 symptoms, 24 pseudo-random) — a proof of the oracle's laws, a test of each instance.",
+    "technique": "Lean 4 theorems (ring identities by grind, decide over regenerated tables) + exact-rational distribution oracle correspondence",
+}
 NOT_CLAIMED = {}
